@@ -58,9 +58,10 @@ def make_cases(chk, routes, lits, n, rich=False, all_lits=False, lit_names=False
     cases = []
     for i in range(n):
         c = Case()
-        pool = lits if not lit_names else lits * 6
-        c.cfg, c.info = G.gen_config(chk.rng, pool if (lit_names or chk.rng.random() < 0.5) else [], rich=rich or (i % 5 == 0),
+        G.LIT_P[0] = 0.6 if lit_names else 0.10
+        c.cfg, c.info = G.gen_config(chk.rng, lits if (lit_names or chk.rng.random() < 0.5) else [], rich=rich or (i % 5 == 0),
                                      dotted=dotted and (i % 3 != 0))
+        G.LIT_P[0] = 0.10
         c.tokA, c.tokB = G.gen_tokens(chk.rng, c.cfg)
         c.cfgA, c.cfgB = G.materialise(c.cfg, c.tokA), G.materialise(c.cfg, c.tokB)
         c.world = G.world_for(chk.rng, c.cfg)
@@ -342,8 +343,8 @@ def run(chk, failed):
     seen = set()
     k = 0
     for lk in leaks:
-        key = (lk["handler"], lk["form"])
-        if key in seen or k >= 4:
+        key = lk["handler"]
+        if key in seen or k >= 3:
             continue
         seen.add(key)
         report_leak(chk, lk, sorted({str(v.get("username")) for sec in G.PW_SECTIONS for v in lk["config"].get(sec, {}).values()
